@@ -21,6 +21,7 @@ var toleratedSignatures = map[string]bool{
 	"fixed_single_line_no_positions_endless_loop": true,
 	"json_output_path_conflict_fatal":             true,
 	"window_frame_offset_unclamped":               true,
+	"zero_column_table_aggregate_fatal":           true,
 	"record_set_preallocation_unbounded":          true,
 }
 
@@ -116,7 +117,7 @@ func FuzzProgram(f *testing.F) {
 			return
 		}
 		c := progCase{Kind: "fuzz", Name: "fuzz", SQL: src, Capture: true}
-		if avoidKnownShapes && knownShapeOfText(up) {
+		if openShapeOf(c) {
 			return
 		}
 		_, v := checkProg(c)
@@ -127,11 +128,4 @@ func FuzzProgram(f *testing.F) {
 			t.Fatalf("%s", v.Error())
 		}
 	})
-}
-
-// knownShapeOfText: a coarse text test for the reported shapes (the fuzzer has
-// no argument classes); it only has to keep the fuzzer away from them.
-func knownShapeOfText(up string) bool {
-	return strings.Contains(up, "RAND") || strings.Contains(up, "JSON_VALUE") || strings.Contains(up, "PAD") || (strings.Contains(up, "PERCENT") && (strings.Contains(up, "NAN") || strings.Contains(up, "OFFSET"))) || strings.Contains(up, "SUBSTR") ||
-		(avoidKnownJsonPathConflict && strings.Contains(up, "JSON") && strings.Contains(up, "."))
 }
